@@ -274,6 +274,10 @@ pub fn parse_openssl_25519_pubkeys_pem_many(
         }
         output.push(parse_openssl_25519_pubkey_der(pem_data.contents())?);
     }
+    if output.is_empty() {
+        // Not a single PEM block: this is not a list of keys
+        return Err(Curve25519ParserError::InvalidData);
+    }
     Ok(output)
 }
 
